@@ -4,6 +4,7 @@ use vstd::prelude::*;
 use vstd::map::Map as SMap;
 use vstd::std_specs::btree::key_obeys_cmp_spec;
 use core::cmp::Ordering;
+use vstd::std_specs::cmp::{PartialEqSpec, PartialOrdSpec, OrdSpec};
 verus! {
 
 /// Usage hypothesis on an actor / key type parameter: `Ord` is a lawful total order (what
@@ -75,6 +76,65 @@ pub proof fn lemma_cnt_ext<A>(x: SMap<A, u64>, y: SMap<A, u64>)
         if y.contains_key(a) && !x.contains_key(a) { assert(cnt(x, a) == 0); assert(false); }
     }
     assert(x =~= y);
+}
+
+
+// ---- total orders on value / marker type parameters ------------------------------------------
+/// Usage hypothesis on a value / marker type: Ord, PartialOrd, PartialEq are lawful and agree.
+pub open spec fn ord_ok<V: Ord>() -> bool { vstd::laws_cmp::obeys_cmp::<V>() }
+
+pub open spec fn lt<V: Ord>(a: V, b: V) -> bool { a.cmp_spec(&b) == Ordering::Less }
+pub open spec fn gt<V: Ord>(a: V, b: V) -> bool { a.cmp_spec(&b) == Ordering::Greater }
+pub open spec fn eqv<V: Ord>(a: V, b: V) -> bool { a.cmp_spec(&b) == Ordering::Equal }
+pub open spec fn le<V: Ord>(a: V, b: V) -> bool { a.cmp_spec(&b) != Ordering::Greater }
+
+/// What vstd's (opaque) `obeys_cmp` gives: the exec operators compute `cmp_spec`, which is a
+/// total preorder whose equivalence is `eq_spec`.
+pub proof fn lemma_ord_ok<V: Ord>()
+    requires ord_ok::<V>(),
+    ensures
+        V::obeys_eq_spec(), V::obeys_partial_cmp_spec(), V::obeys_cmp_spec(),
+        forall|x: V, y: V| #![trigger x.partial_cmp_spec(&y)] #![trigger x.cmp_spec(&y)] x.partial_cmp_spec(&y) == Some(x.cmp_spec(&y)),
+        forall|x: V, y: V| #![trigger x.eq_spec(&y)] #![trigger x.cmp_spec(&y)] x.eq_spec(&y) <==> x.cmp_spec(&y) == Ordering::Equal,
+        forall|x: V, y: V| #![trigger x.cmp_spec(&y)] (x.cmp_spec(&y) == Ordering::Less) <==> (y.cmp_spec(&x) == Ordering::Greater),
+        forall|x: V, y: V| #![trigger x.cmp_spec(&y)] (x.cmp_spec(&y) == Ordering::Equal) <==> (y.cmp_spec(&x) == Ordering::Equal),
+        forall|x: V| #![trigger x.cmp_spec(&x)] x.cmp_spec(&x) == Ordering::Equal || !x.eq_spec(&x),
+        forall|x: V, y: V, z: V| #![trigger x.cmp_spec(&y), y.cmp_spec(&z)] lt(x, y) && lt(y, z) ==> lt(x, z),
+        forall|x: V, y: V, z: V| #![trigger x.cmp_spec(&y), y.cmp_spec(&z)] gt(x, y) && gt(y, z) ==> gt(x, z),
+        forall|x: V, y: V, z: V| #![trigger x.cmp_spec(&y), y.cmp_spec(&z)] eqv(x, y) && eqv(y, z) ==> eqv(x, z),
+{
+    reveal(vstd::laws_cmp::obeys_cmp);
+    reveal(vstd::laws_cmp::obeys_cmp_partial_ord);
+    reveal(vstd::laws_cmp::obeys_cmp_ord);
+    reveal(vstd::laws_cmp::obeys_partial_cmp_spec_properties);
+    reveal(vstd::laws_eq::obeys_eq);
+    reveal(vstd::laws_eq::obeys_eq_spec_properties);
+    assert forall|x: V, y: V| #![trigger x.cmp_spec(&y)] (x.cmp_spec(&y) == Ordering::Less) <==> (y.cmp_spec(&x) == Ordering::Greater) by {
+        assert(x.partial_cmp_spec(&y) == Some(x.cmp_spec(&y)));
+        assert(y.partial_cmp_spec(&x) == Some(y.cmp_spec(&x)));
+    }
+    assert forall|x: V, y: V| #![trigger x.cmp_spec(&y)] (x.cmp_spec(&y) == Ordering::Equal) <==> (y.cmp_spec(&x) == Ordering::Equal) by {
+        assert(x.partial_cmp_spec(&y) == Some(x.cmp_spec(&y)));
+        assert(y.partial_cmp_spec(&x) == Some(y.cmp_spec(&x)));
+        assert(x.eq_spec(&y) == y.eq_spec(&x));
+    }
+    assert forall|x: V, y: V, z: V| #![trigger x.cmp_spec(&y), y.cmp_spec(&z)] lt(x, y) && lt(y, z) implies lt(x, z) by {
+        assert(x.partial_cmp_spec(&y) == Some(x.cmp_spec(&y)));
+        assert(y.partial_cmp_spec(&z) == Some(y.cmp_spec(&z)));
+        assert(x.partial_cmp_spec(&z) == Some(x.cmp_spec(&z)));
+    }
+    assert forall|x: V, y: V, z: V| #![trigger x.cmp_spec(&y), y.cmp_spec(&z)] gt(x, y) && gt(y, z) implies gt(x, z) by {
+        assert(x.partial_cmp_spec(&y) == Some(x.cmp_spec(&y)));
+        assert(y.partial_cmp_spec(&z) == Some(y.cmp_spec(&z)));
+        assert(x.partial_cmp_spec(&z) == Some(x.cmp_spec(&z)));
+    }
+    assert forall|x: V, y: V, z: V| #![trigger x.cmp_spec(&y), y.cmp_spec(&z)] eqv(x, y) && eqv(y, z) implies eqv(x, z) by {
+        assert(x.partial_cmp_spec(&y) == Some(x.cmp_spec(&y)));
+        assert(y.partial_cmp_spec(&z) == Some(y.cmp_spec(&z)));
+        assert(x.partial_cmp_spec(&z) == Some(x.cmp_spec(&z)));
+        assert(x.eq_spec(&y) && y.eq_spec(&z));
+        assert(x.eq_spec(&z));
+    }
 }
 
 } // verus!
